@@ -36,6 +36,12 @@ macro_rules! ent_try {
     };
 }
 
+/// Vec3A source values carry junk in the padding lane (it must never reach a conversion's result)
+#[allow(dead_code)]
+#[inline(always)]
+pub fn vec3a_junk(x: f32, y: f32, z: f32) -> glam::Vec3A {
+    glam::Vec3A::from_vec4(glam::Vec4::new(x, y, z, f32::from_bits(z.to_bits() ^ 0x7fc0_0000 ^ (x.to_bits() >> 9))))
+}
 include!(concat!(env!("CARGO_MANIFEST_DIR"), "/../gen/c14_table.rs"));
 
 pub fn entries() -> Vec<&'static Entry> {
